@@ -26,7 +26,7 @@ import time
 from . import common
 
 MUTATING_OPS = ("openw", "write", "rename", "unlink", "rmdir", "mkdir", "chmod", "symlink", "link", "truncate")
-READ_OPS = ("exists", "openr", "read", "kill0")
+READ_OPS = ("exists", "openr", "read", "kill0", "flock", "funlock")
 TWO_PATH_OPS = ("rename", "link")
 ONLY_EXE = "renamify"
 TIMEOUT_RC = -999
